@@ -305,7 +305,6 @@ class MidiFile:
         self.clip = clip
 
         self.tracks = []
-        self._merged_track = None
 
         if type not in range(3):
             raise ValueError(
@@ -326,13 +325,15 @@ class MidiFile:
         if self.type == 2:
             raise TypeError("can't merge tracks in type 2 (asynchronous) file")
 
-        if self._merged_track is None:
-            self._merged_track = merge_tracks(self.tracks, skip_checks=True)
-        return self._merged_track
+        # This is computed on every access. The tracks are plain lists of
+        # mutable messages so there is no way to tell when a cached merge
+        # would be out of date.
+        return merge_tracks(self.tracks, skip_checks=True)
 
     @merged_track.deleter
     def merged_track(self):
-        self._merged_track = None
+        # Kept for backwards compatibility. (There is no cache to clear.)
+        pass
 
     def add_track(self, name=None):
         """Add a new track to the file.
@@ -344,7 +345,6 @@ class MidiFile:
         if name is not None:
             track.name = name
         self.tracks.append(track)
-        del self.merged_track  # uncache merged track
         return track
 
     def _load(self, infile):
